@@ -18,6 +18,8 @@ EXTENDS ViewsBase
 CONSTANTS ViewIds,
           MaxEvents,
           SharedSlot,
+          FlattenUnion,  \* a view created from a view in the same mode wraps the parser directly with the two label lists joined
+                         \* (right for exclude of exclude, wrong for include of include): not the tree as it is
           ArgAliased     \* the view keeps the caller's collection object instead of its contents (the tree before finding F46):
                          \* what the caller does to that object afterwards - or the view's own membership tests, when the
                          \* object is a one-shot iterator - changes the filter
@@ -30,7 +32,12 @@ VARIABLES doc,     \* the parsed file (never changes)
           n
 
 vars == <<doc, views, slot, arg, last, n>>
-NoView == [mode |-> "none", S |-> {}]
+NoView == [mode |-> "none", S |-> {}, chain |-> <<>>]
+\* a view may be created from another view (FilteredConfigParser(FilteredConfigParser(cp, ...), ...)): chain = the filters of the
+\* views it wraps, outermost parser side first, as they were when it was created
+Own(x) == [mode |-> x.mode, S |-> x.S]
+RECURSIVE DelAll(_, _)
+DelAll(d, fs) == IF fs = <<>> THEN d ELSE DelAll(DeleteMentioning(d, Head(fs)), Tail(fs))
 
 -----------------------------------------------------------------------------
 (* the implementation: FilteredConfigParser *)
@@ -39,9 +46,12 @@ Init == /\ doc \in Docs /\ views = [x \in ViewIds |-> NoView] /\ slot = NoView /
         /\ arg = [x \in ViewIds |-> NoArg]
         /\ last = [id |-> 0, list |-> "none", v |-> NoView, result |-> <<>>]
 
-Create(id, v, kind) == /\ n < MaxEvents
-                       /\ views' = [views EXCEPT ![id] = v]
-                       /\ slot' = v                      \* self._species_list = ... ; self._exclude_flag = ...
+Create(id, v, kind, par) ==
+                       /\ n < MaxEvents
+                       /\ par = 0 \/ (par \in ViewIds /\ par # id /\ views[par] # NoView)
+                       /\ views' = [views EXCEPT ![id] = [mode |-> v.mode, S |-> v.S,
+                                                          chain |-> IF par = 0 THEN <<>> ELSE Append(views[par].chain, Own(views[par]))]]
+                       /\ slot' = [mode |-> v.mode, S |-> v.S, chain |-> <<>>]      \* self._species_list = ... ; self._exclude_flag = ...
                        /\ arg' = [arg EXCEPT ![id] = [S |-> v.S, kind |-> kind]]
                        /\ n' = n + 1
                        /\ UNCHANGED <<doc, last>>
@@ -52,27 +62,34 @@ GrowArg(id, sp) == /\ n < MaxEvents /\ views[id] # NoView /\ arg[id].kind = "lis
                    /\ n' = n + 1
                    /\ UNCHANGED <<doc, views, slot, last>>
 
-EffectiveFilter(id) == IF SharedSlot THEN slot
+EffectiveFilter(id) == IF SharedSlot THEN Own(slot)
                        ELSE IF ArgAliased THEN [mode |-> views[id].mode, S |-> arg[id].S]
-                       ELSE views[id]
+                       ELSE Own(views[id])
+\* the filters a read of view id goes through, parser side first
+EffectiveChain(id) ==
+  LET own == EffectiveFilter(id)
+      ch == views[id].chain IN
+  IF FlattenUnion /\ ch # <<>> /\ ch[Len(ch)].mode = own.mode
+  THEN Append(SubSeq(ch, 1, Len(ch) - 1), [mode |-> own.mode, S |-> ch[Len(ch)].S \cup own.S])
+  ELSE Append(ch, own)
 \* membership tests on a one-shot iterator use it up (abstractly: nothing is left after a read)
 ArgAfterRead(id) == IF ArgAliased /\ arg[id].kind = "iter" THEN [arg EXCEPT ![id].S = {}] ELSE arg
 
 \* _check_tuple over every entry of the wrapped parser's list
 Read(id, l) == /\ n < MaxEvents /\ views[id] # NoView
-               /\ last' = [id |-> id, list |-> l, v |-> views[id], result |-> Filter(doc[l], EffectiveFilter(id))]
+               /\ last' = [id |-> id, list |-> l, v |-> views[id], result |-> DelAll(doc, EffectiveChain(id))[l]]
                /\ arg' = ArgAfterRead(id)
                /\ n' = n + 1
                /\ UNCHANGED <<doc, views, slot>>
 
 \* Configuration().read_from_parser(view) and write(): the builders read all three lists of the view
 Tabulate(id) == /\ n < MaxEvents /\ views[id] # NoView
-                /\ last' = [id |-> id, list |-> "table", v |-> views[id], result |-> DeleteMentioning(doc, EffectiveFilter(id))]
+                /\ last' = [id |-> id, list |-> "table", v |-> views[id], result |-> DelAll(doc, EffectiveChain(id))]
                 /\ arg' = ArgAfterRead(id)
                 /\ n' = n + 1
                 /\ UNCHANGED <<doc, views, slot>>
 
-Next == \/ \E id \in ViewIds, v \in ViewSpace, kind \in {"list", "iter"} : Create(id, v, kind)
+Next == \/ \E id \in ViewIds, v \in ViewSpace, kind \in {"list", "iter"}, par \in {0} \cup ViewIds : Create(id, v, kind, par)
         \/ \E id \in ViewIds, sp \in Species : GrowArg(id, sp)
         \/ \E id \in ViewIds, l \in Lists : Read(id, l)
         \/ \E id \in ViewIds : Tabulate(id)
@@ -81,13 +98,14 @@ Spec == Init /\ [][Next]_vars
 -----------------------------------------------------------------------------
 (* properties *)
 \* a read of a view returns the file's list with the unwanted entries deleted - whatever else happened before
-ReadIsFilter == (last.id # 0) => last.result = (IF last.list = "table" THEN DeleteMentioning(doc, last.v) ELSE DeleteMentioning(doc, last.v)[last.list])
+Expected(v) == DelAll(doc, Append(v.chain, Own(v)))
+ReadIsFilter == (last.id # 0) => last.result = (IF last.list = "table" THEN Expected(last.v) ELSE Expected(last.v)[last.list])
 \* survivors are unchanged and keep their relative order
 SurvivorsInOrder == (last.id # 0 /\ last.list # "table") =>
     \A a, b \in 1..Len(last.result) : a < b =>
         \E x, y \in 1..Len(doc[last.list]) : x < y /\ doc[last.list][x] = last.result[a] /\ doc[last.list][y] = last.result[b]
-EmptyInclude == (last.id # 0 /\ last.list # "table" /\ last.v = [mode |-> "include", S |-> {}]) => last.result = <<>>
-UnknownInert == (last.id # 0 /\ last.list # "table" /\ last.v.mode = "exclude" /\ last.v.S = {Unknown}) => last.result = doc[last.list]
+EmptyInclude == (last.id # 0 /\ last.list # "table" /\ Own(last.v) = [mode |-> "include", S |-> {}]) => last.result = <<>>
+UnknownInert == (last.id # 0 /\ last.list # "table" /\ last.v.chain = <<>> /\ last.v.mode = "exclude" /\ last.v.S = {Unknown}) => last.result = doc[last.list]
 
 -----------------------------------------------------------------------------
 (* cases for the replay: every (file, view) with the file after deletion *)
